@@ -13,13 +13,15 @@ from vlib.kernel import KernelBuild, located_rules
 from . import _common
 
 ID = "K57"
-SERVES = ["C10", "C01", "C13"]
+SERVES = ["C10", "C01", "C04", "C13"]
 TITLE = "setTokenValueCast: width and signedness used for the value of a cast, plain char by the platform's default"
 
 PRELUDE = r'''
 int g_mode; enum Sign g_sign; int g_bits;       /* g_mode: 0 nothing handed on, 1 value handed on unchanged, 2 value converted with (g_sign, g_bits), 3 float */
 #define HAND_ON() do { g_mode = 1; } while (0)
 #define CAST(s, b) do { g_mode = 2; g_sign = (s); g_bits = (b); } while (0)
+_Bool g_v_isfloat; double g_v_float; bigint g_v_intvalue;      /* the value that is cast (read by the conversion to bool only) */
+_Bool g_bool_set; bigint g_bool_val;                           /* the conversion to bool replaced the value by g_bool_val */
 '''
 
 HARNESS = r'''
@@ -37,6 +39,19 @@ void h_dispatch(void) {
     if (s != Sign_UNKNOWN_SIGN) __CPROVER_assert(g_sign == s, "... and with the signedness of that type");
     else if (ds == 's' || ds == 'S') __CPROVER_assert(g_sign == Sign_SIGNED, "plain char is signed on a platform whose default sign is signed");
     else if (ds == 'u' || ds == 'U') __CPROVER_assert(g_sign == Sign_UNSIGNED, "plain char is unsigned on a platform whose default sign is unsigned");
+}
+/* (bool)v / (_Bool)v: 0 for a value that compares equal to 0, 1 otherwise (C11 6.3.1.2) */
+bigint g_in_v; int g_in_isfloat;
+double nondet_double(void);
+void h_bool(void) {
+    struct Platform pl; pl.char_bit = 8; pl.short_bit = 16; pl.int_bit = 32; pl.long_bit = 64; pl.long_long_bit = 64;
+    g_v_isfloat = nondet_bool(); g_v_float = nondet_double(); g_v_intvalue = nondet_bigint();
+    __CPROVER_assume(g_v_float == g_v_float);
+    g_in_v = g_v_intvalue; g_in_isfloat = g_v_isfloat;
+    g_mode = 0; g_bool_set = 0; g_bool_val = 7;
+    cast_dispatch(VType_BOOL, Sign_UNKNOWN_SIGN, 0, 0 /* not impossible */, !g_v_isfloat, 0, &pl, 's');
+    __CPROVER_assert(g_mode == 1 && g_bool_set, "the value of a cast to bool is handed on after the conversion to bool");
+    __CPROVER_assert(g_bool_val == (g_v_isfloat ? (g_v_float != 0.0) : (g_v_intvalue != 0)), "(bool)v is 0 for 0 and 1 for every other value");
 }
 void h_cover(void) {
     struct Platform pl; pl.char_bit = 8; pl.short_bit = 16; pl.int_bit = 32; pl.long_bit = 64; pl.long_long_bit = 64;
@@ -99,6 +114,13 @@ def build(ctx):
         (r'const long long charMax = settings\.platform\.signedCharMax\(\)\s*;', 'const long long charMax = 127;', 1, 1),
         (r'const long long charMin = settings\.platform\.signedCharMin\(\)\s*;', 'const long long charMin = -128;', 1, 1),
         (r'charMin <= value\.intvalue && value\.intvalue <= charMax', 'nondet_bool()', 1, 1),
+        # conversion to bool
+        (r'\bisNumeric\(value\)', '(v_int || g_v_isfloat)', 0, 1),
+        (r'\bvalue\.intvalue = ', 'g_bool_set = 1; g_bool_val = ', 0, 1),
+        (r'\bvalue\.isFloatValue\(\)', 'g_v_isfloat', 0, 1),
+        (r'\bvalue\.floatValue\b', 'g_v_float', 0, 1),
+        (r'\bvalue\.intvalue\b', 'g_v_intvalue', 0, 1),
+        (r'\bvalue\.valueType = Value::ValueType::INT\s*;', ';', 0, 1),
     ], ID)
     if re.search(r'valueType|value\.|settings|std::|Value::', extract.mask(t)):
         raise extract.ExtractError("K57: setTokenValueCast not fully lowered: %r" % re.findall(r'[^\n]*(?:valueType|value\.|settings|std::|Value::)[^\n]*', extract.mask(t))[:3])
@@ -107,12 +129,18 @@ def build(ctx):
     extract.residue_scan(text, ID)
     kb.ctext = text + HARNESS
     kb.job("dispatch", "h_dispatch", replay="char", note="loop-free function; every integer target type and signedness, long 32/64, every default sign")
+    kb.job("bool", "h_bool", replay="bool", note="loop-free function; every integer and every (non-NaN) floating point value")
     kb.job("cover", "h_cover", kind="cover")
     kb.assumptions += ["castValue is a record of (sign, bits) here (its arithmetic is K04's contract); setTokenValue is `hand on`; the unknown-type tail of the function is an oracle",
-                       "bool, wchar_t, float targets and impossible values are not part of the obligation"]
+                       "wchar_t, float targets and impossible values are not part of the obligation; for bool the value itself is read through globals of the harness"]
 
     def rp(inputs, ctx):
         rc, o, cmd = native.compile_run("replay_K57", REPLAY_CPP, [])
         return native.verdict_from_rc(rc, o), o, cmd
     kb.replayers["char"] = rp
+
+    def rpb(inputs, ctx):
+        rc, o, cmd = native.compile_run("replay_K57_bool", REPLAY_CPP.replace("(char)200", "(_Bool)2").replace("== -56", "== 1").replace("gcc: -56", "gcc: 1"), [])
+        return native.verdict_from_rc(rc, o), o, cmd
+    kb.replayers["bool"] = rpb
     return kb
